@@ -286,7 +286,9 @@ def op_load(ctx, bins=(2, 3), where="in12", then=None, cur=2):
     with contextlib.redirect_stdout(io.StringIO()):      # the loader prints a notice outside the recorded range
         pbm.setPSDtoRecordedTime(q)
     prove_ri(ctx, pbm, "load")
-    if k is not None:
+    if k is not None and not (where == "at1" and bins[0] <= bins[1]):
+        # (at the earlier of two records the loader interpolates with weight 0; unless the earlier record has MORE classes than the later one it is
+        #  first re-meshed onto the later record's grid -- consistent and volume conserving, but not class-by-class the record: not claimed)
         rb0, rw, nb, rpsd = recs[k]
         ctx.prove("load:state is the record at a recorded time", pbm.bins == nb and
                   ctx.all([ctx.eq(pbm.PSDbounds[i], rb0 + i * rw) for i in range(nb + 1)] + [ctx.eq(pbm.PSD[i], rpsd[i]) for i in range(nb)]))
